@@ -168,7 +168,7 @@ PLAN = {
         'explanation': 'Contract proof around an abstracted region: see coverage.obligation_list; the region itself is an assumption.',
     },
     'C19': {
-        'kani': ['k_ffi_config_lifecycle', 'k_ffi_null_free', 'k_keycode_to_char'], 'miri': ['ffi_life_cycles'],
+        'kani': ['k_ffi_config_lifecycle', 'k_ffi_null_free', 'k_keycode_to_char'], 'miri': ['ffi_life_cycles'], 'ffi_native': ['ffi_life_cycles_native'],
         'level': 'proof',
         'units': ['layout'],
         'technique': 'Kani harnesses on the real unsafe FFI code (complete finite proofs) + Verus NUL-freedom of key characters; Miri-executed life cycles as bounded stand-in for strings, context handles and leaks',
